@@ -87,9 +87,13 @@ def group_of(gname):
     return None
 
 
+DEFER = [False]      # translating a function that may be retried after the impls it calls (no message for that failure yet)
+
+
 def die(msg):
     LAST_MSG[0] = "%s: %s" % (CUR[0], msg)
-    sys.stderr.write("rs2v_glue: %s: %s\n" % (CUR[0], msg))
+    if not (DEFER[0] and msg.startswith("no generated impl of")):
+        sys.stderr.write("rs2v_glue: %s: %s\n" % (CUR[0], msg))
     sys.exit(1)
 
 
@@ -1871,7 +1875,7 @@ class Gen:
                                                                                "&" if aref else "", tshow(aty)))
             key = (trait, sty, sref, rty, rref)
             if key not in IMPLS:
-                die("no generated impl of %s<%s%s> for %s%s" % (trait, "&" if rref else "", rty, "&" if sref else "", sty))
+                die(NOT_YET + " %s<%s%s> for %s%s" % (trait, "&" if rref else "", rty, "&" if sref else "", sty))
             return self.gcall(IMPLS[key], vs)
         return self.seq(args, env, bt)
 
@@ -2140,6 +2144,7 @@ class Gen:
 
 # ------------------------------------------------------------------------------------------------------------------
 # calls between generated functions (C17): the registry of the operator-trait impls generated so far
+NOT_YET = "no generated impl of"
 SIGS = {}      # generated name -> {"dbg": bool, "n": bool, "params": [type], "ret": type, "eff": bool}   (None: a stub)
 IMPLS = {}     # (trait, Self type "U"/"I", Self is a reference?, type argument, type argument is a reference?) -> generated name
 
@@ -2296,19 +2301,30 @@ def main():
         SIGS[gname] = None
         return "(* NOT TRANSLATED: %s *)\nDefinition %s : unit := tt.\n" % (why.replace("*)", "* )").replace("(*", "( *"), gname)
 
-    def emit(path, selfs, fns, alias):
+    def emit(path, selfs, fns, alias, any_order=False):
+        """any_order (the C17 phase): a function that calls an impl generated LATER in the source is emitted after it (the order
+        of the impls inside a macro body means nothing in Rust); a function that can never be resolved (it calls itself ..) is a stub"""
         for S in selfs:
-            for f in fns:
-                if f[0] in alias:
+            pending = [f for f in fns if f[0] in alias]
+            while pending:
+                deferred = []
+                for f in pending:
                     gname = "%s_%s" % (S, alias[f[0]])
                     ik = impl_key(f[0], S)
                     sm = re.match(r"^(?:Sum|Product)<(&'a)?Self> for ", f[0])
+                    DEFER[0] = any_order
                     try:
                         gname, text = translate_fn(path, S, alias[f[0]], *f[1:], selfref=bool(ik and ik[0][2]),
                                                    tyvars={"I": ("iter", "Self", bool(sm.group(1)))} if sm else None)
                     except (SystemExit, Exception) as ex:
+                        DEFER[0] = False
+                        why = LAST_MSG[0] if isinstance(ex, SystemExit) else repr(ex)
+                        if any_order and isinstance(ex, SystemExit) and NOT_YET in why:
+                            deferred.append((f, why))
+                            continue
                         # this function only: a stub, so that only ITS tie lemma (and its property's check) breaks
-                        text = stub(gname, LAST_MSG[0] if isinstance(ex, SystemExit) else repr(ex))
+                        text = stub(gname, why)
+                    DEFER[0] = False
                     if gname in seen:
                         die("duplicate generated name " + gname)
                     seen.add(gname)
@@ -2319,6 +2335,14 @@ def main():
                         IMPLS[ik[0]] = gname
                     out.append(text)
                     count[path] = count.get(path, 0) + 1
+                if len(deferred) == len(pending):
+                    for f, why in deferred:                      # no progress: these call each other / themselves
+                        gname = "%s_%s" % (S, alias[f[0]])
+                        seen.add(gname)
+                        sys.stderr.write("rs2v_glue: %s\n" % why)
+                        out.append(stub(gname, why))
+                    break
+                pending = [f for f, _ in deferred]
 
     for path, macro, selfs, wanted, skip in FILES:
         CUR[0] = path
@@ -2399,7 +2423,7 @@ def main():
                 continue
             alias[f[0]] = an
             sel.append(f)
-        emit("%s impls!" % path, S, sel, alias)
+        emit("%s impls!" % path, S, sel, alias, any_order=True)
         for an in expect:
             if an not in alias.values():
                 CUR[0] = "%s impls! (%s_%s)" % (path, S, an)
